@@ -10,6 +10,7 @@ for id in $ids; do
   checks=$prop
   [ "$id" = "C08-m2" ] && checks="C13"
   [ "$id" = "C03-m3" ] && checks="C03 C11"     # the cache decoder belongs to C11
+  [ "$id" = "C03-m5" ] && checks="C03 C11"     # the cache file lookup belongs to C11
   git -C "$WT" checkout -q -- . ; git -C "$WT" clean -fdq
   if ! git -C "$WT" apply "$PWD/seeded/$id/patch.diff" 2>/dev/null; then echo "$id: PATCH-DOES-NOT-APPLY (repo fix touches the same lines?)" | tee -a seeded/MATRIX.txt; continue; fi
   for chk in $checks; do
